@@ -10,6 +10,8 @@ CONSTANTS
   BugRelinkDrop = FALSE
   BugNoRepub = FALSE
   BugStaleChan = FALSE
+  BugRelinkKeep = FALSE
+  BugHoldBreak = FALSE
   WSet <- MCWSet
   Gen = TRUE
 CHECK_DEADLOCK FALSE
